@@ -94,6 +94,32 @@ func loadRepo(repo string, patterns []string) (*Loaded, error) {
 	if err != nil {
 		return nil, err
 	}
+	// assumed contracts on dependencies: /verif/specs/*.spec (one external package per file)
+	specFiles, _ := filepath.Glob(filepath.Join(verifRoot, "specs", "*.spec"))
+	sort.Strings(specFiles)
+	for _, sfile := range specFiles {
+		cf, err2 := readContractFile(sfile, "")
+		if err2 != nil {
+			return nil, err2
+		}
+		for _, fc := range cf.Funcs {
+			fc.Trusted = true
+			fc.Pkg = cf.Pkg
+		}
+		for _, fc := range cf.Ifaces {
+			fc.Trusted = true
+		}
+		if old, ok := ld.contracts[cf.Pkg]; ok {
+			for k, v := range cf.Funcs {
+				old.Funcs[k] = v
+			}
+			for k, v := range cf.Specs {
+				old.Specs[k] = v
+			}
+		} else {
+			ld.contracts[cf.Pkg] = cf
+		}
+	}
 	// ghost fields must be registered before any layout is computed
 	for _, cf := range ld.contracts {
 		pkg := ld.pkgByPath(cf.Pkg)
@@ -304,4 +330,17 @@ func (ld *Loaded) methodOf(t types.Type, name string) *ssa.Function {
 		}
 	}
 	return nil
+}
+
+// ifaceContract finds the contract declared for an interface method (iface Type.Method).
+func (ld *Loaded) ifaceContract(t types.Type, method string) *FuncContract {
+	n, ok := types.Unalias(t).(*types.Named)
+	if !ok || n.Obj().Pkg() == nil {
+		return nil
+	}
+	cf := ld.contracts[n.Obj().Pkg().Path()]
+	if cf == nil {
+		return nil
+	}
+	return cf.Ifaces[n.Obj().Name()+"."+method]
 }
